@@ -757,3 +757,33 @@ def oldest_node(d):
     top = max(t[u] for u in used)
     cands = [u for u in used if t[u] == top]
     return cands[0] if len(cands) == 1 else None
+
+
+# ------------------------------------------------------------------ the float exp/log/pow of the model
+def check_float_funs(ctx, n=60):
+    """coq/model/DiscreteFloat.v implements exp / log / pow on binary64 with float arithmetic;
+    compare them with libm on random arguments (relative 1e-13)"""
+    rng = ctx.rng
+    xs = [rng.uniform(-740, 700) for _ in range(n // 3)] + [rng.uniform(-2, 2) for _ in range(n // 3)] + \
+         [0.0, 1.0, -1.0, 1e-300, -1e-300, 709.0, -745.0]
+    ys = [10 ** rng.uniform(-300, 300) for _ in range(n // 3)] + [rng.uniform(0.5, 2.0) for _ in range(n // 3)] + \
+         [1.0, 5e-324, 1e308, 0.5, 2.0]
+    pw = [(rng.random() * 10 ** rng.randint(-30, 2), rng.random()) for _ in range(n // 3)] + [(0.0, 0.3), (1.0, 0.7), (0.37, 1.0)]
+    body = PRELUDE + "Eval vm_compute in (map fexp %s, map flog %s, map (fun vf => fpow (fst vf) (snd vf)) %s).\n" % (
+        cvec(xs), cvec(ys), clist(pw, lambda vf: "(%s, %s)" % (cfloat(vf[0]), cfloat(vf[1]))))
+    got = ctx.coq_eval(body, requires=("lib.Num", "model.Discrete", "model.DiscreteFloat"), tag="flt")[0]
+    worst = 0.0
+    for name, args, vals, f in (("fexp", xs, got[0], math.exp), ("flog", ys, got[1], math.log),
+                                ("fpow", pw, got[2], lambda vf: vf[0] ** vf[1])):
+        for a, b in zip(args, vals):
+            want = f(a)
+            b = float(b)
+            if want == b:
+                continue
+            err = abs(want - b) / max(abs(want), 5e-324)
+            if want != 0.0 and abs(want) < 1e-300:      # subnormal results: absolute comparison
+                err = abs(want - b) / 1e-300
+            worst = max(worst, err)
+            ctx.corr("model-float-" + name, err <= 1e-13, "%s(%r): libm %r, model %r" % (name, a, want, b),
+                     {"unit": name, "arg": a, "libm": want, "model": b})
+    ctx.notes["model_float_functions_max_rel_error_vs_libm"] = worst
